@@ -1,6 +1,361 @@
-//! placeholder: filled in by the check that owns this sub-command
+//! `vh eqv …` — binding of spec/Seqs.tla!ValEq (C19: equality is by content) to the implementation.
+//!
+//!   vh eqv replay <dir> <quick|thorough>
+//!
+//! Reads what MC_Eq wrote: eq_contents.ndjson (every content with its simple producer expressions and
+//! its row of the ValEq matrix), eq_producers.ndjson (small array contents with all their producer
+//! expressions and the ValEq matrix under every wrapper), eq_axes.ndjson. Every case is rendered as a
+//! SimpleSL program that builds both sides along the given producer paths and evaluates
+//! `x == y`, `x != y`, `match x { y => 1, => 0, }` and `y == x`; the four answers are compared with the
+//! specification's prediction. The same matrix is also replayed at API level (`Variable == Variable`
+//! on values built with different hidden element types).
+use crate::seqs::{k, parallel, render_ext, render_value, run_text, struct_fields, Bag, Ran};
+use crate::util::{catch, read_ndjson};
 use serde_json::{Value, json};
+use simplesl::{
+    Interpreter,
+    function::{Function, Param, Params},
+    variable::{Array, Mut, Type, Typed, Variable},
+};
+use std::{collections::{BTreeSet, HashMap}, sync::{Arc, RwLock}};
 
-pub fn run(_args: &[String]) -> Value {
-    json!({"error": "not implemented"})
+/// the union type of the cell a value is passed through
+const U: &str = "[any]|(any, any)|(any, any, any)|struct{}|int|float|string|bool|()|mut int|()->int";
+const FILTER_TYPE: &str = "int|float|string|[any]";
+
+#[derive(Default)]
+struct Uses {
+    id: bool,
+    nv: bool,
+    isv: bool,
+    fns: BTreeSet<i64>,
+    cells: BTreeSet<i64>,
+}
+
+fn scan_idents(v: &Value, u: &mut Uses) {
+    match k(v) {
+        "fnv" => {
+            u.fns.insert(v["id"].as_i64().unwrap());
+        }
+        "cell" => {
+            u.cells.insert(v["id"].as_i64().unwrap());
+        }
+        "array" | "tuple" => v["es"].as_array().unwrap().iter().for_each(|e| scan_idents(e, u)),
+        "struct" => struct_fields(v).iter().for_each(|(_, e)| scan_idents(e, u)),
+        _ => {}
+    }
+}
+
+fn es(e: &Value) -> &[Value] {
+    e["es"].as_array().map(Vec::as_slice).unwrap_or(&[])
+}
+
+/// Source text of a producer expression (every compound sub-expression parenthesised).
+fn render_expr(e: &Value, u: &mut Uses) -> String {
+    match k(e) {
+        "lit" => {
+            scan_idents(&e["v"], u);
+            render_value(&e["v"])
+        }
+        "cat" => format!("({} + {})", render_expr(&e["l"], u), render_expr(&e["r"], u)),
+        "slice" => {
+            let (a, b, c) = (render_ext(&e["a"]), render_ext(&e["b"]), render_ext(&e["c"]));
+            let br = if c.is_empty() { format!("[{a}:{b}]") } else { format!("[{a}:{b}:{c}]") };
+            format!("{}{br}", render_expr(&e["s"], u))
+        }
+        "rep" => format!("[{}; {}]", render_expr(&e["v"], u), e["n"].as_i64().unwrap()),
+        "collect" => format!("({}~ $])", render_expr(&e["s"], u)),
+        "part" => {
+            let pred = if e["pred"] == "notvoid" {
+                u.nv = true;
+                "nv"
+            } else {
+                u.isv = true;
+                "isv"
+            };
+            format!("({}~ \\ {pred}).{}", render_expr(&e["s"], u), e["side"].as_i64().unwrap())
+        }
+        "filter" => {
+            u.nv = true;
+            format!("({}~ ? nv $])", render_expr(&e["s"], u))
+        }
+        "tfilter" => format!("({}~ ? {FILTER_TYPE} $])", render_expr(&e["s"], u)),
+        "anyp" => {
+            u.id = true;
+            format!("id({})", render_expr(&e["e"], u))
+        }
+        "cellu" => format!("(*(mut {U} {}))", render_expr(&e["e"], u)),
+        "at" => format!("{}[{}]", render_expr(&e["s"], u), render_ext(&e["i"])),
+        "tup" => format!("({})", es(e).iter().map(|x| render_expr(x, u)).collect::<Vec<_>>().join(", ")),
+        "arr" => format!("[{}]", es(e).iter().map(|x| render_expr(x, u)).collect::<Vec<_>>().join(", ")),
+        "struct1" => format!("struct{{a := {}}}", render_expr(&e["e"], u)),
+        other => panic!("producer expression kind {other}"),
+    }
+}
+
+fn wrap(w: &str, e: &Value) -> Value {
+    match w {
+        "id" => e.clone(),
+        "arr" => json!({"k": "arr", "es": [e]}),
+        "tup" => json!({"k": "tup", "es": [{"k": "lit", "v": {"k": "int", "v": 1}}, e]}),
+        "struct1" => json!({"k": "struct1", "e": e}),
+        other => panic!("wrapper {other}"),
+    }
+}
+
+fn preamble(u: &Uses) -> String {
+    let mut p = String::new();
+    if u.id {
+        p.push_str("id := (x: any) -> any { return x }; ");
+    }
+    if u.nv {
+        p.push_str("nv := (x: any) -> bool { return match x { v: () => false, => true, } }; ");
+    }
+    if u.isv {
+        p.push_str("isv := (x: any) -> bool { return match x { v: () => true, => false, } }; ");
+    }
+    for f in &u.fns {
+        p.push_str(&format!("f{f} := () -> int {{ return 1 }}; "));
+    }
+    for c in &u.cells {
+        p.push_str(&format!("c{c} := mut 1; "));
+    }
+    p
+}
+
+/// mode "vars": both sides bound to variables first; mode "inline": the expressions stand in the
+/// comparison themselves (whatever the folder can see, it folds).
+pub fn program(ex: &Value, ey: &Value, mode: &str) -> String {
+    let mut u = Uses::default();
+    let (x, y) = (render_expr(ex, &mut u), render_expr(ey, &mut u));
+    let pre = preamble(&u);
+    if mode == "vars" {
+        format!("{pre}x := {x}; y := {y}; m := match x {{ y => 1, => 0, }}; (x == y, x != y, m, y == x)")
+    } else {
+        format!("{pre}m := match {x} {{ {y} => 1, => 0, }}; ({x} == {y}, {x} != {y}, m, {y} == {x})")
+    }
+}
+
+#[derive(Default)]
+struct Ctx {
+    mm: Bag,
+    evals: u64,
+    programs: u64,
+    equal_cases: u64,
+    cross_path_equal: u64,
+    samples: Vec<Value>,
+    path_pairs: BTreeSet<(String, String)>,
+    api_checks: u64,
+}
+
+fn check_case(cx: &mut Ctx, interp: &Interpreter, suite: &str, px: &Value, py: &Value, wrapper: &str, eq: bool, mode: &str, sample: bool) {
+    let (ex, ey) = (wrap(wrapper, &px["e"]), wrap(wrapper, &py["e"]));
+    let text = program(&ex, &ey, mode);
+    let r = run_text(interp, &text);
+    cx.evals += 4;
+    cx.programs += 1;
+    let names = (px["p"].as_str().unwrap().to_string(), py["p"].as_str().unwrap().to_string());
+    if eq {
+        cx.equal_cases += 1;
+        if names.0 != names.1 {
+            cx.cross_path_equal += 1;
+        }
+    }
+    let base = json!({"suite": suite, "px": names.0, "py": names.1, "wrapper": wrapper, "mode": mode,
+        "x": ex, "y": ey, "program": text, "spec_equal": eq});
+    cx.path_pairs.insert(names);
+    let with = |extra: Value| {
+        let mut b = base.clone();
+        for (key, v) in extra.as_object().unwrap() {
+            b[key.as_str()] = v.clone();
+        }
+        b
+    };
+    match &r {
+        Ran::Val { v: Variable::Tuple(t), .. } if t.len() == 4 => {
+            let want = [Variable::Bool(eq), Variable::Bool(!eq), Variable::Int(eq as i64), Variable::Bool(eq)];
+            let what = ["eq", "ne", "match", "sym"];
+            for i in 0..4 {
+                let same = match (&t[i], &want[i]) {
+                    (Variable::Bool(a), Variable::Bool(b)) => a == b,
+                    (Variable::Int(a), Variable::Int(b)) => a == b,
+                    _ => false,
+                };
+                if !same {
+                    cx.mm.push(what[i], with(json!({"expected": format!("{:?}", want[i]), "observed": format!("{:?}", t[i])})));
+                }
+            }
+            if sample {
+                cx.samples.push(with(json!({"impl": format!("{:?}", Variable::Tuple(t.clone()))})));
+            }
+        }
+        Ran::Val { v, .. } => cx.mm.push("run", with(json!({"observed": format!("unexpected result {v:?}")}))),
+        Ran::Err { kind, stage } => cx.mm.push("run", with(json!({"observed": format!("{stage} error {kind}")}))),
+        Ran::Panic(msg) => cx.mm.push("run", with(json!({"observed": format!("panic: {msg}")}))),
+    }
+}
+
+// ------------------------------------------------------------------ API route
+
+fn native_stub(_: &mut Interpreter) -> Result<Variable, simplesl::ExecError> {
+    Ok(Variable::Int(1))
+}
+
+struct Idents {
+    cells: HashMap<i64, Arc<Mut>>,
+    fns: HashMap<i64, Arc<Function>>,
+}
+
+/// Build the content with the implementation's constructors; `tagmode` chooses the hidden element
+/// type of every array: 0 = computed from the elements, 1 = any, 2 = computed | string | [any].
+fn build(c: &Value, tagmode: usize, ids: &mut Idents) -> Variable {
+    match k(c) {
+        "bool" => Variable::Bool(c["b"].as_bool().unwrap()),
+        "int" => Variable::Int(c["v"].as_i64().unwrap()),
+        "float" => Variable::Float(match c["c"].as_str().unwrap() {
+            "fin" => c["h"].as_i64().unwrap() as f64 / 2.0,
+            "nan" => f64::NAN,
+            "negzero" => -0.0,
+            "inf" => f64::INFINITY,
+            "neginf" => f64::NEG_INFINITY,
+            other => panic!("float class {other}"),
+        }),
+        "string" => Variable::String(crate::seqs::string_of_cps(c).into()),
+        "void" => Variable::Void,
+        "array" => {
+            let elements: Arc<[Variable]> = es(c).iter().map(|e| build(e, tagmode, ids)).collect();
+            match tagmode {
+                0 => Array::from(elements).into(),
+                1 => Array::new_with_type(Type::Any, elements).into(),
+                _ => {
+                    let computed = Array::from(elements.clone()).element_type().clone();
+                    let wide = computed | Type::String | Type::Array(Arc::new(Type::Any));
+                    Array::new_with_type(wide, elements).into()
+                }
+            }
+        }
+        "tuple" => Variable::Tuple(es(c).iter().map(|e| build(e, tagmode, ids)).collect()),
+        "struct" => {
+            let vm: HashMap<Arc<str>, Variable> =
+                struct_fields(c).into_iter().map(|(n, x)| (Arc::from(n.as_str()), build(&x, tagmode, ids))).collect();
+            Variable::Struct(Arc::new(vm))
+        }
+        "cell" => {
+            let id = c["id"].as_i64().unwrap();
+            Variable::Mut(ids.cells.entry(id).or_insert_with(|| Arc::new(Mut { var_type: Type::Int, variable: RwLock::new(Variable::Int(1)) })).clone())
+        }
+        "fnv" => {
+            let id = c["id"].as_i64().unwrap();
+            Variable::Function(ids.fns.entry(id).or_insert_with(|| Arc::new(Function::new(std::iter::empty::<Param>().collect::<Params>(), native_stub, Type::Int))).clone())
+        }
+        other => panic!("content kind {other}"),
+    }
+}
+
+// ------------------------------------------------------------------ replay
+
+fn replay(dir: &str, tier: &str) -> Value {
+    let thorough = tier == "thorough";
+    let contents = read_ndjson(&format!("{dir}/eq_contents.ndjson"));
+    let prods = read_ndjson(&format!("{dir}/eq_producers.ndjson"));
+    let axes = &read_ndjson(&format!("{dir}/eq_axes.ndjson"))[0];
+    let wrappers: Vec<String> = axes["wrappers"].as_array().unwrap().iter().map(|w| w.as_str().unwrap().to_string()).collect();
+    let nc = contents.len();
+    let parts = parallel(|w, nw| {
+        let interp = Interpreter::with_stdlib();
+        let mut cx = Ctx::default();
+        // ---- suite A: every ordered pair of contents, producers rotating
+        for i in 0..nc {
+            if i % nw != w {
+                continue;
+            }
+            let (ri, psi) = (&contents[i], contents[i]["ps"].as_array().unwrap());
+            for j in 0..nc {
+                let psj = contents[j]["ps"].as_array().unwrap();
+                let eq = ri["eq"][j].as_i64().unwrap() == 1;
+                let rots: &[usize] = if thorough { &[0, 2] } else { &[0] };
+                for rot in rots {
+                    let px = &psi[(i + j + rot) % psi.len()];
+                    let py = &psj[(i + 2 * j + 1 + rot) % psj.len()];
+                    let modes: &[&str] = if thorough { &["vars", "inline"] } else if (i + j) % 2 == 0 { &["vars"] } else { &["inline"] };
+                    for mode in modes {
+                        check_case(&mut cx, &interp, "contents", px, py, "id", eq, mode, i == nc / 2 && j == nc / 2 + 1);
+                    }
+                }
+                // API route: `Variable == Variable` with different hidden element types on the two sides
+                for tx in 0..3 {
+                    for ty in 0..3 {
+                        let mut ids = Idents { cells: HashMap::new(), fns: HashMap::new() };
+                        let (x, y) = (build(&ri["c"], tx, &mut ids), build(&contents[j]["c"], ty, &mut ids));
+                        cx.api_checks += 1;
+                        cx.evals += 2;
+                        match catch(|| (x == y, x != y)) {
+                            Ok((e, n)) if e == eq && n == !eq => {}
+                            Ok((e, n)) => cx.mm.push("api", json!({"suite": "api", "x": ri["c"], "y": contents[j]["c"],
+                                "x_tag": x.as_type().to_string(), "y_tag": y.as_type().to_string(),
+                                "px": format!("tagmode{tx}"), "py": format!("tagmode{ty}"), "program": "Variable == Variable",
+                                "spec_equal": eq, "observed": format!("== gave {e}, != gave {n}")})),
+                            Err(p) => cx.mm.push("api", json!({"suite": "api", "x": ri["c"], "y": contents[j]["c"],
+                                "px": format!("tagmode{tx}"), "py": format!("tagmode{ty}"), "program": "Variable == Variable",
+                                "spec_equal": eq, "observed": format!("panic: {p}")})),
+                        }
+                    }
+                }
+            }
+        }
+        // ---- suite B: all pairs of producers of small array contents, under the wrappers
+        let mut n = 0usize;
+        for (i, ri) in prods.iter().enumerate() {
+            for (j, rj) in prods.iter().enumerate() {
+                for (a, px) in ri["ps"].as_array().unwrap().iter().enumerate() {
+                    for (b, py) in rj["ps"].as_array().unwrap().iter().enumerate() {
+                        n += 1;
+                        if n % nw != w {
+                            continue;
+                        }
+                        let ws: Vec<usize> = if thorough { (0..wrappers.len()).collect() } else { vec![(i + j + a + b) % wrappers.len()] };
+                        for wi in ws {
+                            let eq = ri["eq"][wi][j].as_i64().unwrap() == 1;
+                            let modes: &[&str] = if thorough { &["vars", "inline"] } else if (a + b) % 2 == 0 { &["vars"] } else { &["inline"] };
+                            for mode in modes {
+                                check_case(&mut cx, &interp, "producers", px, py, &wrappers[wi], eq, mode, n % 4001 == 7);
+                            }
+                        }
+                    }
+                }
+            }
+        }
+        cx
+    });
+    let mut t = Ctx::default();
+    for p in parts {
+        t.mm.merge(p.mm);
+        t.evals += p.evals;
+        t.programs += p.programs;
+        t.equal_cases += p.equal_cases;
+        t.cross_path_equal += p.cross_path_equal;
+        t.samples.extend(p.samples);
+        t.path_pairs.extend(p.path_pairs);
+        t.api_checks += p.api_checks;
+    }
+    let paths: BTreeSet<&String> = t.path_pairs.iter().flat_map(|(a, b)| [a, b]).collect();
+    json!({
+        "contents": nc, "producer_contents": prods.len(), "programs": t.programs, "evaluations": t.evals,
+        "spec_equal_cases": t.equal_cases, "equal_across_different_paths": t.cross_path_equal,
+        "api_checks": t.api_checks, "path_pairs_seen": t.path_pairs.len(), "paths_seen": paths,
+        "mismatch_counts": t.mm.counts_json(), "mismatches": t.mm.items_json(60),
+        "samples": t.samples.into_iter().take(6).collect::<Vec<_>>(),
+    })
+}
+
+pub fn run(args: &[String]) -> Value {
+    match args.first().map(String::as_str) {
+        Some("replay") => replay(&args[1], args.get(2).map(String::as_str).unwrap_or("quick")),
+        Some("program") => {
+            // vh eqv program '<x expr json>' '<y expr json>' <mode>: render one case (replay aid)
+            let (x, y) = (serde_json::from_str(&args[1]).unwrap(), serde_json::from_str(&args[2]).unwrap());
+            json!({"program": program(&x, &y, args.get(3).map(String::as_str).unwrap_or("vars"))})
+        }
+        _ => json!({"error": "usage: vh eqv replay <dir> <tier>"}),
+    }
 }
